@@ -121,6 +121,12 @@ def load_specs(pid: str) -> list[dict]:
                 meta = json.load(open(os.path.join(dp, "meta.json")))
                 if pid in (meta.get("detected_by") or []):
                     specs.append({"name": "seeded/" + os.path.relpath(dp, sroot), "patch": os.path.join(dp, "patch.diff"), "expect": "violation"})
+    # behaviour-preserving refactorings written by independent agents for this property: must stay silent
+    troot = os.path.join(VERIF, "twins", pid)
+    if os.path.isdir(troot):
+        for dp, dn, fn in sorted(os.walk(troot)):
+            if "patch.diff" in fn:
+                specs.append({"name": "twins/" + os.path.relpath(dp, os.path.join(VERIF, "twins")), "patch": os.path.join(dp, "patch.diff"), "expect": "silent"})
     return specs
 
 
